@@ -35,6 +35,51 @@ class TLCResult:
         return self.violation is None
 
 
+def dev_limits():
+    """Development-time throttle shared by parallel builders: if the file
+    $VERIF_SCRATCH/DEV_LIMITS exists ({"workers": n, "slots": k}) TLC runs use at most n workers
+    and at most k run concurrently machine-wide.  Absent (as in any fresh restore): no limit."""
+    try:
+        import json
+        with open(os.path.join(SCRATCH, "DEV_LIMITS")) as f:
+            return json.load(f)
+    except Exception:
+        return None
+
+
+class _Slot:
+    def __init__(self, k):
+        self.k = k
+        self.f = None
+
+    def __enter__(self):
+        import fcntl
+        d = os.path.join(SCRATCH, "slots")
+        os.makedirs(d, exist_ok=True)
+        while True:
+            for i in range(self.k):
+                f = open(os.path.join(d, "%d.lock" % i), "w")
+                try:
+                    fcntl.flock(f, fcntl.LOCK_EX | fcntl.LOCK_NB)
+                    self.f = f
+                    return self
+                except OSError:
+                    f.close()
+            time.sleep(0.5)
+
+    def __exit__(self, *a):
+        if self.f:
+            self.f.close()
+
+
+class _NoSlot:
+    def __enter__(self):
+        return self
+
+    def __exit__(self, *a):
+        pass
+
+
 def scratch_dir(prefix="tlc"):
     os.makedirs(SCRATCH, exist_ok=True)
     return tempfile.mkdtemp(prefix=prefix + "-", dir=SCRATCH)
@@ -61,8 +106,15 @@ def run(spec_dir, module, cfg, *, workers=None, timeout=600, coverage=False, sim
     simulate: dict(num=N, file=prefix or None) -> -simulate;  dump: path for `-dump`.
     Raises TLCError on timeout / parse errors / crashes (exit 2 material)."""
     workers = workers or int(os.environ.get("VERIF_WORKERS", "16"))
+    lim = dev_limits()
+    slot = _NoSlot()
+    gc_threads = min(8, max(2, workers))
+    if lim:
+        workers = min(workers, int(lim.get("workers", workers)))
+        gc_threads = 2
+        slot = _Slot(int(lim.get("slots", 6)))
     meta = scratch_dir("meta")
-    cmd = ["java", "-XX:+UseParallelGC", "-Xmx" + heap, "-Xss64m"]
+    cmd = ["java", "-XX:+UseParallelGC", "-XX:ParallelGCThreads=%d" % gc_threads, "-Xmx" + heap, "-Xss64m"]
     if dfs:
         cmd.append("-Dtlc2.tool.queue.IStateQueue=StateDeque")
     cmd += list(jvm)
@@ -93,8 +145,10 @@ def run(spec_dir, module, cfg, *, workers=None, timeout=600, coverage=False, sim
     res.cmd = " ".join(cmd)
     t0 = time.time()
     try:
-        p = subprocess.run(cmd, cwd=spec_dir, env=e, stdout=subprocess.PIPE, stderr=subprocess.STDOUT,
-                           timeout=timeout, text=True, errors="replace")
+        with slot:
+            t0 = time.time()
+            p = subprocess.run(cmd, cwd=spec_dir, env=e, stdout=subprocess.PIPE, stderr=subprocess.STDOUT,
+                               timeout=timeout, text=True, errors="replace")
     except subprocess.TimeoutExpired as ex:
         shutil.rmtree(meta, ignore_errors=True)
         raise TLCError("TLC timed out after %ss: %s" % (timeout, " ".join(cmd))) from ex
